@@ -123,6 +123,8 @@ def call(I, fn, args, kwargs, node=None):
         fn = I.unwrap_opt(fn, "callable")
     if isinstance(fn, Model):
         return fn.fn(I, args, kwargs)
+    if getattr(fn, "is_spec", False):
+        return fn.apply(I, list(args))
     if isinstance(fn, BoundMethod):
         f = fn.func
         if isinstance(f, tuple):
@@ -481,6 +483,20 @@ def b_bytes(I, args, kwargs, mutable=False):
         v = v.items()
     if isinstance(v, SOpt):
         v = I.unwrap_opt(v, "bytes argument")
+    if type(v).__name__ == "SymList":
+        et = int_term(v.elem)
+        from .interp import _syntactic_bounds
+
+        bnd = _syntactic_bounds(et)
+        if not (bnd is not None and 0 <= bnd[0] and bnd[1] <= 255):
+            ok = z3.ForAll([v.ivar], z3.Implies(z3.And(v.ivar >= 0, v.ivar < v.n), z3.And(et >= 0, et < 256)))
+            if not I.ctx.prove(ok):
+                raise Unsupported("bytes() of a symbolic list whose elements are not provably in range(256)")
+        r = v.canonical() if v.seq_args else I.ctx.fresh_const("mapped", ByteSeq)
+        I.ctx.assume(z3.Length(r) == v.n)
+        I.ctx.assume(z3.ForAll([v.ivar], z3.Implies(z3.And(v.ivar >= 0, v.ivar < v.n),
+                                                     r[v.ivar] == z3.Int2BV(et, 8))))
+        return SBytes(r, mutable)
     if isinstance(v, SBytes):
         return SBytes(v.t, mutable)
     if isinstance(v, (bytes, bytearray)):
@@ -643,7 +659,14 @@ def b_enumerate(I, args, kwargs):
     return [(i + start, x) for i, x in enumerate(items)]
 
 
+class SymZip:
+    def __init__(self, seqs):
+        self.seqs = seqs
+
+
 def b_zip(I, args, kwargs):
+    if any(isinstance(a, SBytes) and not z3.is_int_value(z3.simplify(z3.Length(a.t))) for a in args):
+        return SymZip(list(args))
     lists = [I.iterate_concrete(a) for a in args]
     return list(zip(*lists))
 
@@ -1054,8 +1077,9 @@ def int_method(I, v, name, args, kwargs):
         w = 8 * length
         if not I.fmode and not I.ctx.branch(z3.And(t >= 0, t < (1 << w))):
             raise PyRaise(mk_exc(OverflowError, "int too big to convert"))
-        x = z3.Int2BV(t, w)
-        units = [z3.Unit(z3.Extract(8 * k + 7, 8 * k, x)) for k in range(length)]  # little endian order
+        # byte k (little endian) is (t div 256^k) mod 256: kept arithmetic so that specifications written
+        # with // and % meet it syntactically
+        units = [z3.Unit(z3.Int2BV(z3.simplify((t / (256 ** k)) % 256), 8)) for k in range(length)]
         if order == "big":
             units.reverse()
         return SBytes(z3.simplify(z3.Concat(*units)) if len(units) > 1 else units[0])
